@@ -326,6 +326,11 @@ def gen_spec(seed: int, config: str | None = None) -> dict:
                     n["script"][1:1] = [{"op": "run", "ns": bk.choice([0, 0, 1000, 10**6])} for _ in range(bk.choice([1, 2, 3]))]
         spec["backlog"] = total
         knobs["read_chunk"] = max(knobs["read_chunk"], 64) if knobs["read_chunk"] else knobs["read_chunk"]
+    # a value nested hundreds of levels deep (a parse tree, a linked list written as nested pairs): whatever could be
+    # packed must be unpackable.  Only the pure round trip is exercised (phase 0), with loops instead of recursion on my side.
+    dp = random.Random(derive(seed, "deep"))
+    if dp.random() < 0.03:
+        spec["chain"] = {"kind": dp.choice(["dict", "dict", "list", "mix"]), "depth": dp.choice([200, 400, 520, 700, 900])}
     frk = random.Random(derive(seed, "fork"))
     if not inproc and len(nodes) >= 2 and frk.random() < 0.2:
         for _ in range(frk.choice([1, 1, 2])):
@@ -1318,6 +1323,27 @@ def run(spec: dict, decider: Decider, keep_events: bool = False) -> RunResult:
                     if not ok and rt_bad is None:
                         cls = classify_payload([op["to"], op["data"]])
                         rt_bad = Violation("roundtrip", f"serial {op['serial']} to={op['to']!r} data={op['data']!r}: {msg}"[:600], cls)
+            ch = spec.get("chain")
+            if ch and rt_bad is None:
+                v = "leaf"
+                for i in range(ch["depth"]):
+                    v = {"k": v} if ch["kind"] == "dict" or (ch["kind"] == "mix" and i % 2) else [v]
+                sim.probe("deeply_nested_value")
+                try:
+                    wire = pack(Packet(to="deep", data=v))
+                except RecursionError:
+                    wire = None  # too deep to be sent at all: nothing was promised
+                if wire is not None:
+                    try:
+                        u = unpack(wire).data
+                        depth = 0
+                        while isinstance(u, (dict, list)) and len(u) == 1:
+                            u = u["k"] if isinstance(u, dict) and "k" in u else (u[0] if isinstance(u, list) else None)
+                            depth += 1
+                        if u != "leaf" or depth != ch["depth"]:
+                            rt_bad = Violation("roundtrip", f"a value nested {ch['depth']} levels deep ({ch['kind']}) came back different (depth {depth}, leaf {u!r})", "deep-nesting")
+                    except Exception as e:  # noqa: BLE001
+                        rt_bad = Violation("roundtrip", f"a value nested {ch['depth']} levels deep ({ch['kind']}) was packed but unpack() raised {type(e).__name__}: {str(e)[:80]}", "deep-nesting")
     except Violation as v:
         viol = v
     env.active = True
@@ -1548,6 +1574,15 @@ def shrink_candidates(spec: dict):
             gone_serials = {op["serial"] for op in n["script"] if op["op"] == "send"}
             s["faults"] = [f for f in s["faults"] if f.get("node") != n["name"] and f.get("serial") not in gone_serials]
             yield s
+    if spec.get("chain"):
+        s = copy.deepcopy(spec)
+        del s["chain"]
+        yield s
+        for dpt in (200, 400, 520, 700):
+            if dpt < spec["chain"]["depth"]:
+                s = copy.deepcopy(spec)
+                s["chain"]["depth"] = dpt
+                yield s
     # a forked process becomes an ordinary one; a fork happens at once; the queue object is not inherited
     for i, n in enumerate(nodes):
         if "fork" in n:
